@@ -43,6 +43,13 @@ def gen(rng, tier, k):
         ab["osu_meter"] = rng.choice([3, 5, 7])  # the time signature of an osu timing point does not move anything in time
     if sg in ("osu", "qua") and len(ab["tempo"]) > 1 and rng.random() < 0.4:
         ab["tempo_rows_reversed"] = True  # tempo entries listed out of time order in the source file
+    if sg == "sm" and rng.random() < 0.4:
+        # a .sm file carries several charts, each with its own chart type (key count); tempo and offset belong to the file
+        ab["extra"] = []
+        for _ in range(rng.choice([1, 1, 2])):
+            k2 = rng.choice(sorted(set(KEYS_OK[sg]) & set(KEYS_OK[tg])))
+            e = xfmt.gen_abstract(rng, k2, n_meas=ab["n_meas"], t0=ab["t0"], n_tempo=1)
+            ab["extra"].append(dict(keys=k2, notes=e["notes"]))
     return dict(cls=name, pair=name, src=sg, tgt=tg, abstract=ab, meta=dict(title=rng.choice(["Title", "a b", "Song 2"]), artist=rng.choice(["Artist", "DJ X"]),
                                                                              creator="me", version=rng.choice(["Hard", "7"])))
 
@@ -96,16 +103,19 @@ def run(ctx, case):
             data = xfmt.render_bms(ab, lanes, case["meta"]); dA = D.den_bms(data, lanes)
         else:
             data = xfmt.render_ojn(ab, case["meta"]); dA = D.den_ojn(data)[:1]
-        want = xfmt.abstract_den(ab)
+        abs_all = [ab] + [dict(ab, keys=e["keys"], notes=e["notes"]) for e in ab.get("extra", [])]
         ms_src = sg in ("osu", "qua")
-        ok = len(dA) == 1 and len(dA[0]["objects"]) == len(want["objects"]) and all(
-            a[0] == b[0] and abs(a[1] - b[1]) < (1 if ms_src else 1e-6) and ((a[2] is None) == (b[2] is None)) and (a[2] is None or abs(a[2] - b[2]) < (1 if ms_src else 1e-6))
-            for a, b in zip(sorted(dA[0]["objects"]), sorted(want["objects"])))
-        if not ok or dA[0]["problems"]:
+        ok = len(dA) == len(abs_all)
+        for d_, ab_ in zip(dA, abs_all):
+            want = xfmt.abstract_den(ab_)
+            ok = ok and len(d_["objects"]) == len(want["objects"]) and not d_["problems"] and all(
+                a[0] == b[0] and abs(a[1] - b[1]) < (1 if ms_src else 1e-6) and ((a[2] is None) == (b[2] is None)) and (a[2] is None or abs(a[2] - b[2]) < (1 if ms_src else 1e-6))
+                for a, b in zip(sorted(d_["objects"]), sorted(want["objects"])))
+        if not ok:
             ctx.counters["harness.error"] += 1
             ctx.notes.append(f"source rendering disagrees with the abstract chart ({case['pair']}): {dA[0]['problems']}")
             return
-    feat = dict(target=tg, source=sg, first_tempo_ms_nonzero=ab["t0"] != 0)
+    feat = dict(target=tg, source=sg, first_tempo_ms_nonzero=ab["t0"] != 0, several_charts=bool(ab.get("extra")))
     wit = dict(pair=case["pair"], abstract=ab, source=(data if isinstance(data, (str, list)) else data.hex())[:200] if False else None)
     # ---- the real chain ---------------------------------------------------
     stage = "read"
@@ -158,15 +168,15 @@ def run(ctx, case):
         wit["output"] = [(t if isinstance(t, str) else ("\n".join(map(str, t)) if isinstance(t, list) else t.decode("shift_jis", "replace")))[:2500] for t in texts][:1]
         if len(dB) != len(dA):
             return ctx.violate("C09", "c09.chain", "chart_count", f"{case['pair']}: {len(dA)} source chart(s), {len(dB)} written", wit, feat)
-        for a, b in zip(dA, dB):
+        for a, b, ab_ in zip(dA, dB, abs_all):
             if b["problems"]:
                 return ctx.violate("C09", "c09.chain", "invalid_output", f"{case['pair']}: written file is malformed: {b['problems'][:3]}", wit, feat)
-            if tg == "osu" and b.get("keys") != ab["keys"]:
-                return ctx.violate("C09", "c09.chain", "key_count", f"{case['pair']}: source has {ab['keys']} keys, the .osu says CircleSize {b.get('keys')}", wit, feat)
-            if tg == "qua" and b.get("mode") != {4: "Keys4", 7: "Keys7", 8: "Keys8"}.get(ab["keys"]):
-                return ctx.violate("C09", "c09.chain", "key_count", f"{case['pair']}: source has {ab['keys']} keys, the .qua says Mode {b.get('mode')}", wit, feat)
-            if tg == "sm" and b.get("type") != xfmt.SM_TYPE.get(ab["keys"]):
-                return ctx.violate("C09", "c09.chain", "key_count", f"{case['pair']}: source has {ab['keys']} keys, the .sm chart type is {b.get('type')}", wit, feat)
+            if tg == "osu" and b.get("keys") != ab_["keys"]:
+                return ctx.violate("C09", "c09.chain", "key_count", f"{case['pair']}: source has {ab_['keys']} keys, the .osu says CircleSize {b.get('keys')}", wit, feat)
+            if tg == "qua" and b.get("mode") != {4: "Keys4", 7: "Keys7", 8: "Keys8"}.get(ab_["keys"]):
+                return ctx.violate("C09", "c09.chain", "key_count", f"{case['pair']}: source has {ab_['keys']} keys, the .qua says Mode {b.get('mode')}", wit, feat)
+            if tg == "sm" and b.get("type") != xfmt.SM_TYPE.get(ab_["keys"]):
+                return ctx.violate("C09", "c09.chain", "key_count", f"{case['pair']}: source has {ab_['keys']} keys, the .sm chart type is {b.get('type')}", wit, feat)
             A = sorted((c + shift, t0, t1) for c, t0, t1 in a["objects"])
             B = sorted(b["objects"])
             if [(c, t1 is None) for c, _, t1 in A] != [(c, t1 is None) for c, _, t1 in B] and sorted((c, t1 is None) for c, _, t1 in A) != sorted((c, t1 is None) for c, _, t1 in B):
@@ -204,4 +214,4 @@ def run(ctx, case):
                                        + (f" (every time is moved by -{t0} ms, the first tempo point)" if const else ""), dict(wit, A=A[:12], B=B[:12]), f2)
                 return ctx.violate("C09", "c09.chain", "timeline_shift" if const else "tempo", f"{case['pair']}: tempo timeline differs: {tbad}; source {tempoA[:5]}, output {tb[:5]}", wit, f2)
         ctx.held("c09.chain", "denotation")
-        ctx.state("c09.pair", (case["pair"], ab["t0"] != 0, len(ab["tempo"]) > 1))
+        ctx.state("c09.pair", (case["pair"], ab["t0"] != 0, len(ab["tempo"]) > 1, len(ab.get("extra", []))))
